@@ -17,9 +17,18 @@ const V: f64 = 1.1102230246251565e-16; // 2^-53 = one ulp in [0.5, 1)
 struct Place { mode: u8, scale: f64, cx: f64, cy: f64 }
 impl Place {
     fn base(&self, x0: f64, is_y: bool) -> f64 {
-        if self.mode == 0 { 16.0 + x0 } else { 0.5 + 6.0 * (x0 - if is_y { self.cy } else { self.cx }) }
+        match self.mode {
+            0 => 16.0 + x0,
+            1 => 0.5 + 6.0 * (x0 - if is_y { self.cy } else { self.cx }),
+            // Mode 2: long edges with non-integer coordinates.  x0 -> A + 2^20 x0 with A = 70.8486328125 (x) / 302.5009765625 (y):
+            // lattice edges become ~10^6 long, perturbations are multiples of 2^-30 (one ulp at 2^22).  All values are
+            // representable (<= 52 significant bits); the products of the naive determinant need ~75 bits, so its rounding
+            // error (~2^-7) exceeds the true determinant of a few 2^-9 - the regime where unguarded arithmetic gives a
+            // wrong, non-zero sign.
+            _ => (if is_y { 302.5009765625 } else { 70.8486328125 }) + 1048576.0 * x0,
+        }
     }
-    fn unit(&self) -> f64 { if self.mode == 0 { U } else { V } }
+    fn unit(&self) -> f64 { match self.mode { 0 => U, 1 => V, _ => 9.313225746154785e-10 } }
     fn pp(&self, v: &Value) -> Coord<f64> {
         let f = |w: &Value, is_y: bool| (self.base(w[0].as_f64().unwrap(), is_y) + w[1].as_f64().unwrap() * self.unit()) * self.scale;
         Coord { x: f(&v[0], false), y: f(&v[1], true) }
@@ -49,6 +58,7 @@ pub fn kernel_case(cx: &mut Ctx, n: u64, case: &Value) {
     let scale = scales[((n + cx.seed) % 3) as usize];
     let b_unperturbed = case["b"][0][1] == 0 && case["b"][1][1] == 0;
     kernel_placed(cx, case, Place { mode: 0, scale, cx: 0.0, cy: 0.0 }, want3, want11);
+    kernel_placed(cx, case, Place { mode: 2, scale: if scale == 1.0 { 1.0 } else if scale > 1.0 { 2f64.powi(20) } else { scale }, cx: 0.0, cy: 0.0 }, want3, want11);
     if b_unperturbed {
         let pl = Place { mode: 1, scale, cx: case["c"][0][0].as_f64().unwrap(), cy: case["c"][1][0].as_f64().unwrap() };
         kernel_placed(cx, case, pl, want3, want11);
